@@ -72,6 +72,40 @@ def cascade_removal_table(ctx, clause):
     return obs
 
 
+def profiler_removal_table(ctx, clause):
+    """ClassProfiler._clean_class_profile interpreted on C -> A -> B (B has no feature), D -> B, D -> C and an original target T
+    without features, with both profiling strategies: B is removed, T and the shapes that keep features stay, and no features
+    dictionary still mentions a removed shape."""
+    from ..abseval import AbsObj
+    p = ctx.p
+    f = p.func("shexer.core.profiling.class_profiler:ClassProfiler._clean_class_profile")
+    obs = []
+    for sname, two in (("DirectFeaturesStrategy", False), ("IncludeReverseFeaturesStrategy", True)):
+        ev = Evaluator(ctx, max_depth=16)
+        ev.concrete_classes = {"ClassProfiler", "DirectFeaturesStrategy", "IncludeReverseFeaturesStrategy"}
+        wrap = (lambda d: (d, {})) if two else (lambda d: d)
+        prof = {"C": wrap({"p": {"IRI": {1: 2}, "A": {1: 2}}}), "A": wrap({"q": {"B": {1: 1}}}), "B": wrap({}),
+                "D": wrap({"r": {"B": {1: 1}, "C": {1: 1}}}), "T": wrap({})}
+        cp, st = AbsObj(p.find_class("ClassProfiler")), AbsObj(p.find_class(sname))
+        st.fields = {"_class_profiler": cp, "_c_shapes_dict": prof}
+        cp.fields = {"_classes_shape_dict": prof, "_remove_empty_shapes": True, "_strategy": st, "_original_target_nodes": {"T"}}
+        try:
+            ev.invoke(cp, "_clean_class_profile", [], {}, 0)
+            left = cp.fields["_classes_shape_dict"]
+            feats = {k: (v[0] if two else v) for k, v in left.items()}
+            dangling = sorted((k, pr, x) for k, d in feats.items() for pr, kinds in d.items() for x in kinds
+                              if x in ("A", "B", "C", "D", "T") and x not in left)
+            ok = "B" not in left and all(x in left for x in ("C", "D", "T")) and not dangling
+            got = "shapes left %s, dangling %s" % (sorted(left), dangling)
+        except Raised as r:
+            ok, got = False, "raises " + r.exc
+        obs.append(Ob(clause, "R-TABLE", "R-TABLE|profile-removal-cascade|%s" % sname, f.loc(), ok,
+                      "profile cleaning with %s: the featureless class goes, the original target and the classes with features stay, "
+                      "no features dictionary mentions a removed class" % sname if ok else
+                      "profile cleaning with %s on C->A->B(empty), D->B, D->C, target T: %s" % (sname, got)))
+    return obs
+
+
 def pairing(ctx, clause):
     p = ctx.p
     obs = []
@@ -100,13 +134,8 @@ def pairing(ctx, clause):
     ok = len(outs) == 1 and outs[0][0] == "return" and [s["st_type"] for s in outs[0][1]] == ["IRI", "%<S2>"]
     obs.append(Ob(clause, "R-TABLE", "R-TABLE|statements-without-removed-shapes", f.loc(), ok,
                   "exactly the statements whose target is a removed shape are dropped" if ok else "code gives %s" % (outs,)))
-    # profiler: references deleted in every features dict before the shape itself
-    pr = p.func("shexer.core.profiling.class_profiler:ClassProfiler._iteration_remove_empty_shapes")
-    loops_ = [s for s in pr.node.body if isinstance(s, ast.For)]
-    ok = len(loops_) == 2 and "features_dicts_of_shape" in norm(loops_[0]) and "del " in norm(loops_[0]) \
-        and norm(loops_[1]).count("del self._classes_shape_dict[") == 1
-    obs.append(Ob(clause, "R-ORDER", "R-ORDER|profile-refs-then-shape|ClassProfiler._iteration_remove_empty_shapes", pr.loc(), ok,
-                  "the profiler deletes the references in every features dictionary, then the empty shapes"))
+    # profiler: the same cascade, interpreted (whatever the loops, deletes / pops and helpers look like)
+    obs += ctx.attempt(profiler_removal_table, ctx, clause, default=[])
     return obs
 
 
